@@ -112,6 +112,14 @@ where
     let _enter = span.enter();
 
     let partition = crate::as_atomic(partition);
+    #[cfg(feature = "coupe_verif")]
+    let traced_locks = crate::verif::traced_bools(&locks);
+    #[cfg(feature = "coupe_verif")]
+    let locks = &traced_locks[..];
+    #[cfg(feature = "coupe_verif")]
+    let traced_partition = crate::verif::traced_usizes(partition);
+    #[cfg(feature = "coupe_verif")]
+    let partition = &traced_partition[..];
 
     // This function makes move attempts until either
     // - `cut` is empty, or
@@ -242,6 +250,8 @@ where
                     .unwrap();
         }
 
+        #[cfg(feature = "coupe_verif")]
+        crate::verif::pass_begin(thread_count);
         // The actual pass.
         let (pass_metadata, part_weights_sum) = partition
             .par_chunks(items_per_thread)
@@ -250,6 +260,8 @@ where
                 let mut cut = Vec::new();
                 let mut part_weights = part_weights.clone();
                 let mut metadata = Metadata::default();
+                #[cfg(feature = "coupe_verif")]
+                crate::verif::task_begin(chunk_idx);
                 for (initial_part, vertex) in chunk.iter().zip(items_per_thread * chunk_idx..) {
                     let initial_part = initial_part.load(Ordering::Relaxed);
                     let on_cut = adjacency.neighbors(vertex).any(|(neighbor, _edge_weight)| {
@@ -263,6 +275,8 @@ where
                         // blank
                     }
                 }
+                #[cfg(feature = "coupe_verif")]
+                crate::verif::task_end();
                 (metadata, part_weights)
             })
             .reduce(
